@@ -357,10 +357,17 @@ theorem sigtime_rt (t : Nat) (ht : t < 4294967296) :
   simp
   omega
 
-theorem field_sigtime (st : Style) (env : PEnv) (t : Nat) (ht : t ≤ 4294967295) :
+theorem parse_sigtime (env : PEnv) (x : List Nat) (t : Nat) (b : Plain x) (a : sigtimeFromText x = some t) :
+    parseField env .sigtime ⟨.ident, x⟩ = some (.n t) := by
+  have h1 : parseField env .sigtime ⟨.ident, x⟩ =
+      (match unescapeCP x with | some v => (sigtimeFromText v).map FV.n | none => none) := rfl
+  rw [h1, unescapeCP_plain_all x b]
+  show Option.map FV.n (sigtimeFromText x) = some (.n t)
+  rw [a]; rfl
+
+theorem field_sigtime (st : Style) (env : PEnv) (t : Nat) (ht : t < 4294967296) :
     ∃ text, FieldRT st env .sigtime (.n t) text ⟨.ident, text⟩ := by
-  obtain ⟨a, b, c⟩ := sigtime_rt t (by omega)
-  refine ⟨sigtimeToText t, by simp only [printField], lexes_plain _ c b, ?_, notHash_plain _ b⟩
-  simp [parseField, parseFieldExtra, unescapeCP_plain_all _ b, a]
+  obtain ⟨a, b, c⟩ := sigtime_rt t ht
+  exact ⟨sigtimeToText t, rfl, lexes_plain _ c b, parse_sigtime env _ t b a, notHash_plain _ b⟩
 
 end Model
